@@ -70,6 +70,12 @@ impl SecondaryTransaction {
     ) -> StorageResult<Self> {
         // pin a snapshot at version manager
         let pin_version = table.version.pin();
+        #[cfg(feature = "verif")]
+        crate::verif::point(
+            "txn.after_pin",
+            &[table.table_id() as u64, update as u64, pin_version.epoch],
+        )
+        .await;
         Ok(Self {
             finished: false,
             mem: None,
@@ -118,6 +124,8 @@ impl SecondaryTransaction {
     }
 
     async fn commit_inner(mut self) -> StorageResult<()> {
+        #[cfg(feature = "verif")]
+        crate::verif::point("txn.commit_begin", &[self.table.table_id() as u64]).await;
         self.flush_rowset().await?;
 
         // flush deletes to disk
@@ -148,13 +156,25 @@ impl SecondaryTransaction {
                     guard.insert(path, Bytes::from(buf));
                 }
                 _ => {
+                    #[cfg(feature = "verif")]
+                    let verif_path = path.clone();
+                    #[cfg(feature = "verif")]
+                    crate::verif::crash_point("dv.before_create", &verif_path);
                     let mut file = tokio::fs::OpenOptions::default()
                         .write(true)
                         .create_new(true)
                         .open(path)
                         .await?;
                     DeleteVector::write_all(&mut file, &deletes).await?;
+                    #[cfg(feature = "verif")]
+                    {
+                        use tokio::io::AsyncWriteExt;
+                        file.flush().await?;
+                        crate::verif::crash_point("dv.written", &verif_path);
+                    }
                     file.sync_data().await?;
+                    #[cfg(feature = "verif")]
+                    crate::verif::crash_point("dv.synced", &verif_path);
                 }
             }
             dvs.push(DeleteVector::new(dv_id, rowset_id, deletes));
@@ -208,6 +228,8 @@ impl SecondaryTransaction {
             ))
         }));
 
+        #[cfg(feature = "verif")]
+        crate::verif::point("txn.before_commit", &[self.table.table_id() as u64]).await;
         // Commit changeset
         self.version.commit_changes(changeset).await?;
 
@@ -329,6 +351,8 @@ impl SecondaryTransaction {
             if !self.table.storage_options.disable_all_disk_operation {
                 tokio::fs::create_dir(&directory).await?;
             }
+            #[cfg(feature = "verif")]
+            crate::verif::crash_point("rowset.mkdir", &directory);
 
             self.mem = Some(SecondaryMemRowsetImpl::new(
                 self.table.columns.clone(),
